@@ -51,6 +51,26 @@ def import_repo():
     return opticomlib
 
 
+@contextlib.contextmanager
+def fresh_repo():
+    """A freshly imported instance of the library (all module-level state - caches, singletons - reset), used to obtain
+    results that cannot depend on the calls made before.  The previously imported modules are restored afterwards."""
+    saved = {k: v for k, v in sys.modules.items() if k == "opticomlib" or k.startswith("opticomlib.")}
+    for k in saved:
+        del sys.modules[k]
+    try:
+        with warnings.catch_warnings():
+            warnings.simplefilter("ignore")
+            import importlib
+            pkg = importlib.import_module("opticomlib")
+            mods = {name: importlib.import_module("opticomlib." + name) for name in ("typing", "devices", "utils", "ook", "ppm")}
+        yield mods
+    finally:
+        for k in [k for k in sys.modules if k == "opticomlib" or k.startswith("opticomlib.")]:
+            del sys.modules[k]
+        sys.modules.update(saved)
+
+
 class TlcResult:
     def __init__(self, out, rc):
         self.out, self.rc = out, rc
